@@ -1922,9 +1922,46 @@ static char *cfg_make_fullpath(const char *dir, const char *file)
 	return path;
 }
 
+/* the directories in the order they were added (the list is prepended to).
+ * A candidate name that cannot be built ends the search: going on would
+ * answer with a file from a later directory as if the earlier one had none */
+static char *cfg_searchpath_r(cfg_searchpath_t *p, const char *file, int *fail)
+{
+	char *fullpath;
+#ifdef HAVE_SYS_STAT_H
+	struct stat st;
+	int err;
+#endif
+
+	if (!p)
+		return NULL;
+
+	fullpath = cfg_searchpath_r(p->next, file, fail);
+	if (fullpath || *fail)
+		return fullpath;
+
+	fullpath = cfg_make_fullpath(p->dir, file);
+	if (!fullpath) {
+		*fail = 1;
+		return NULL;
+	}
+
+#ifdef HAVE_SYS_STAT_H
+	err = stat((const char *)fullpath, &st);
+	if ((!err) && S_ISREG(st.st_mode))
+		return fullpath;
+#else
+	/* needs an alternative check here for win32 */
+#endif
+
+	free(fullpath);
+	return NULL;
+}
+
 DLLIMPORT char *cfg_searchpath(cfg_searchpath_t *p, const char *file)
 {
 	char *fullpath;
+	int fail = 0;
 #ifdef HAVE_SYS_STAT_H
 	struct stat st;
 	int err;
@@ -1935,20 +1972,13 @@ DLLIMPORT char *cfg_searchpath(cfg_searchpath_t *p, const char *file)
 		return NULL;
 	}
 
-	if (file[0] == '/') {
-		fullpath = strdup(file);
-		if (!fullpath)
-			return NULL;
-		goto check;
-	}
+	if (file[0] != '/')
+		return cfg_searchpath_r(p, file, &fail);
 
-	if ((fullpath = cfg_searchpath(p->next, file)) != NULL)
-		return fullpath;
-
-	if ((fullpath = cfg_make_fullpath(p->dir, file)) == NULL)
+	fullpath = strdup(file);
+	if (!fullpath)
 		return NULL;
 
-check:
 #ifdef HAVE_SYS_STAT_H
 	err = stat((const char *)fullpath, &st);
 	if ((!err) && S_ISREG(st.st_mode))
